@@ -290,6 +290,15 @@ _UPDATES = [
     ("C17", "text", "contiguous with 0..4 rows, three strides;", "contiguous and strided with up to 17 rows, strides of every residue modulo 4 doubles;"),
     ("C18", "text", "is executed with every const operand snapshotted including stride padding;", "is executed - under four buffer-alignment patterns and with every pure source in its own read-only mapping, so that even a write that is undone afterwards faults - with every const operand snapshotted including stride padding;"),
     ("C18", "note", "snapshots compare the state after the call (a write that restores the old value is C12's concern, caught there by write traps).", "snapshots compare the state after the call; transient writes are caught by the read-only mappings for caller-owned sources and by C12's write traps for module / table memory."),
+    ("C04", "text", "and concrete worst-case runs must be exact modulo each prime.", "and concrete worst-case runs (all-maximal, alternating, single-maximal, high-halves-only and low-halves-only operands, every ell) must be exact modulo each prime."),
+    ("C06", "text", "and agree with it bit for bit.", "and agree with it bit for bit; every transform is also computed inside the buffer of a table built with num_buffers = 1 and again in user memory afterwards (bit-identical)."),
+    ("C07", "text", "reim4 dot products, the 8 FFT drivers)", "reim4 dot products on seeded and on structured rows - purely real, purely imaginary, small integers, partly zero -, the 8 FFT drivers)"),
+    ("C09", "text", "is run on an injective probe and compared", "is run on an injective probe, and on the same probe with every third coefficient zero and a dirty output buffer, and compared"),
+    ("C10", "text", "on six operand families per layout (canonical, unreduced/lazy, all-maximal, alternating, single maximal, zero)", "on eight operand families per layout (canonical, unreduced/lazy, only the high / only the low half of every word non-zero, all-maximal, alternating, single maximal, zero)"),
+    ("C10", "text", "block extract/save on every block index.", "block extract/save on every block index; EVERY residue r < 2^30 (canonical, largest 64-bit representative, negative int64 representative) goes through both conversions into the c layout."),
+    ("C14", "text", "with the verdict |out - x/d| <= 1/2 evaluated exactly;", "with the verdict |out - x/d| <= 1/2 evaluated exactly, each probe both inside the sorted alphabet and alone among small values at a moving position;"),
+    ("C15", "text", "table-based and exported kernels, and constructors.", "table-based and exported kernels, inverse DFTs of constant DFT vectors (exact ties, top-binade magnitudes), and constructors."),
+    ("C18", "text", "under four buffer-alignment patterns", "under four buffer-alignment patterns and two layouts with all operands packed back to back in one block"),
 ]
 for _cid, _field, _old, _new in _UPDATES:
     if _old not in CHECKS[_cid][_field]:
